@@ -200,6 +200,9 @@ func c07NewWorld() *c07World {
 	w.bids["Ap"] = BlockID{Hash: h("block-a"), PartSetHeader: PartSetHeader{Total: 1, Hash: h("parts-q")}}
 	w.bids["B"] = BlockID{Hash: h("block-b"), PartSetHeader: PartSetHeader{Total: 1, Hash: h("parts-p")}}
 	w.bids["Z"] = BlockID{}
+	// incomplete ids: hash present, part-set header empty / with total 0 (Commit.ValidateBasic lets both through)
+	w.bids["Ai"] = BlockID{Hash: h("block-a")}
+	w.bids["Aj"] = BlockID{Hash: h("block-a"), PartSetHeader: PartSetHeader{Total: 0, Hash: h("parts-p")}}
 	return w
 }
 
